@@ -52,3 +52,41 @@ Fixpoint r_chain_go (pk : pkey K) (ms : list Z) (s : sigt K) (ops : list (Z * Z 
   end.
 Definition r_chain (pk : pkey K) (ms : list Z) (s1 s2 : Z) (ops : list (Z * Z * Z)) : list Z :=
   [b2z (verify pk (fqs ms) (sig s1 s2))] ++ r_chain_go pk ms (sig s1 s2) ops.
+
+(** Schnorr proofs.  A commitment proof travels as C, T, rbf, rs. *)
+From ZK Require Import Model.Schnorr Model.Range.
+Definition vcp (p : cproof K) : list Z := [v (cp_C p); v (cp_T p); v (cp_rbf p)] ++ vs (cp_rs p).
+Definition mk_cp (C T rbf : Z) (rs : list Z) : cproof K := mkCP (fq C) (fq T) (fq rbf) (fqs rs).
+Definition vsp (p : sproof K) : list Z := vsig (sp_sig p) ++ vcp (sp_cp p).
+Definition mk_sp (t : list Z) : sproof K :=
+  match t with
+  | s1 :: s2 :: C :: T :: rbf :: rs => mkSP (sig s1 s2) (mk_cp C T rbf rs)
+  | _ => mkSP (sig 0 0) (mk_cp 0 0 0 [])
+  end.
+
+Definition r_cp_prove (h : Z) (gs ms : list Z) (bf kbf : Z) (ks : list Z) (c : Z) : list Z :=
+  vcp (cp_prove (fq h) (fqs gs) (fqs ms) (fq bf) (fq kbf) (fqs ks) (fq c)).
+Definition r_cp_verify (h : Z) (gs : list Z) (C T rbf : Z) (rs : list Z) (c : Z) : list Z :=
+  [b2z (cp_verify (fq h) (fqs gs) (mk_cp C T rbf rs) (fq c))].
+Definition r_req_prove (pk : pkey K) (ms : list Z) (bf kbf : Z) (ks : list Z) (c : Z) : list Z :=
+  vcp (req_prove pk (fqs ms) (fq bf) (fq kbf) (fqs ks) (fq c)).
+Definition r_req_verify (pk : pkey K) (C T rbf : Z) (rs : list Z) (c : Z) : list Z :=
+  match req_verify pk (mk_cp C T rbf rs) (fq c) with Some x => [1; v x] | None => [0] end.
+Definition r_sp_prove (pk : pkey K) (ms : list Z) (s1 s2 bf kbf : Z) (ks : list Z) (r c : Z) : list Z :=
+  vsp (sig_prove pk (fqs ms) (sig s1 s2) (fq bf) (fq kbf) (fqs ks) (fq r) (fq c)).
+Definition r_sp_verify (pk : pkey K) (t : list Z) (c : Z) : list Z := [b2z (sig_verify pk (mk_sp t) (fq c))].
+
+(** range constraints *)
+Definition mk_rp (sigs : list (Z * Z)) (pk : pkey K) : rparams K :=
+  mkRP (map (fun s => sig (fst s) (snd s)) sigs) pk.
+Definition mk_rd (t : Z * Z * Z * Z) : rdraw K :=
+  let '(a, b, c, d) := t in mkRD (fq a) (fq b) (fq c) (fq d).
+Definition r_range_prove (rp : rparams K) (value : Z) (ds : list (Z * Z * Z * Z)) (c : Z) : list Z :=
+  match range_prove rp value (map mk_rd ds) (fq c) with
+  | None => [0]
+  | Some ps => 1 :: v (range_commitment_scalar (map mk_rd ds)) :: flat_map vsp ps
+  end.
+Definition r_range_verify (rp : rparams K) (ps : list (list Z)) (c e : Z) : list Z :=
+  [b2z (range_verify rp (map mk_sp ps) (fq c) (fq e))].
+Definition r_validate (rp : rparams K) : list Z := [b2z (validate rp)].
+Definition r_digits (value : Z) : list Z := digits value.
